@@ -674,6 +674,11 @@ class C11(Prop):
             plan["writer"] = {"sends": [(t.choice(["text", "bytes"]), None, t.choice(OP_DELAYS)) for _ in range(ns)],
                               "closes": [(t.choice(CLOSE_CODES), t.choice(OP_DELAYS)) for _ in range(t.weighted([(3, 1), (2, 2), (1, 0)]))]}
             plan["writer"]["sends"] = [(kd, ("w%d" % i) if kd == "text" else b"w%d" % i, dl) for i, (kd, _, dl) in enumerate(plan["writer"]["sends"])]
+        if frames and not plan.get("mismatch") and t.draw(5) == 0:
+            # a zero-length frame is a frame (keep-alives, empty chat lines): one per script, so values stay unique
+            i = t.draw(len(frames))
+            frames = list(frames)
+            frames[i] = (frames[i][0], "" if frames[i][0] == "text" else b"")
         plan["frames"] = frames
         return plan
 
